@@ -20,7 +20,8 @@ PROPS = {
                 "non-trivial = exactly one mutation on an authenticated route",
         "assumptions": [SAMPLED, "TLS/mTLS ingress is outside the statement"],
         "guards": ["accepted", "rejected-401", "rejected-403", "rejected-503", "kind-hmac", "kind-basic", "kind-forward"],
-        "parts": [{"engine": "front", "test": "TestProp_C08_Auth", "quick": 2500, "thorough": 250000}],
+        "parts": [{"engine": "front", "test": "TestProp_C08_Auth", "quick": 2500, "thorough": 250000},
+                  {"engine": "front", "test": "TestProp_C08_ReloadWindow", "quick": 1200, "thorough": 40000, "shards": {"quick": 8}}],
     },
     "C02": {
         "rule": "store wiring tier: the store is built by the product's own newQueueStore from generated config text (backend memory / sqlite, queue / delivered / dlq retention ages "
